@@ -4,7 +4,7 @@ LogQLSem.tla defines what a log query means over an abstract database; LogQLPlan
 index + bit mask, like/notLike/match, simple label filters hoisted to time_series, labels join, parser / drop map
 functions and the SELECT blocks they share (a label filter closes its block before a later drop / parser), ORDER/LIMIT
 placement, the Go engine after a `json` stage).  TLC enumerates the
-fragments of MC_LogQL.tla (M selectors, L line filters, P label filters / extraction / drop, W window / type / limit /
+fragments of MC_LogQL.tla (M selectors, A whole-value regex matchers over values that extend a matched value, L line filters, P label filters / extraction / drop, W window / type / limit /
 direction) exhaustively plus a seeded sample of the product grammar (S), checks the structural invariants, reports every
 case where mechanism and definition differ (candidates) and exports cases with the definition's result.  cmd/c07
 concretises every exported case with hostile strings, stores it, sends the LogQL text through the REAL
@@ -40,10 +40,10 @@ CHECK_DEADLOCK FALSE
 TIERS = {
     # frag: (Mods: export 1 case in n, ModsDev: the same for cases where mechanism and definition differ,
     #        DBMods: enumerate the seeded 1/n sample of the databases; 1 = all)
-    'quick': {'M': (20, 20), 'L': (1, 1), 'P': (1, 1), 'W': (20, 20, 3), 'S': (1, 1), 'maxentries': 3, 'nS': 300},
-    'thorough': {'M': (1, 1), 'L': (1, 1), 'P': (1, 1), 'W': (18, 18), 'S': (1, 1), 'maxentries': 4, 'nS': 6000},
+    'quick': {'M': (20, 20), 'A': (60, 60), 'L': (1, 1), 'P': (1, 1), 'W': (20, 20, 3), 'S': (1, 1), 'maxentries': 3, 'nS': 300},
+    'thorough': {'M': (1, 1), 'A': (1, 1), 'L': (1, 1), 'P': (1, 1), 'W': (18, 18), 'S': (1, 1), 'maxentries': 4, 'nS': 6000},
 }
-FRAGS = ['M', 'L', 'P', 'W', 'S']
+FRAGS = ['M', 'A', 'L', 'P', 'W', 'S']
 
 _CASE = re.compile(r'^<<"C0[78]CASE", "(.*)">>$')
 _DEV = re.compile(r'^<<"C0[78]DEV", (\d+), "([A-Z])", "([a-z-]+)">>$')
@@ -232,9 +232,52 @@ def limit_shadow_case(r):
     return {'q': q, 'db': db}
 
 
+def whole_value_case(r):
+    """directed: regex stream matchers over streams whose label values START WITH / END WITH / CONTAIN a value the regex
+    matches (LogQLSem.ExtVals) - a label regex is matched against the whole value - in front of an arbitrary pipeline
+    whose label filters do not look at the stream labels"""
+    fmt = r.choice(['json', 'plain'])
+    ext = ['v1s', 'pv2', 'pv1s']
+    streams = []
+    while len(streams) < r.randint(2, 4):
+        if r.random() < 0.5:
+            s = {'a': r.choice(['v1', 'v2'] + ext + ext), 'b': r.choice(['v1', 'v2'])}
+        else:
+            s = {'a': r.choice(['v1', 'v2']), 'b': r.choice(['v1', 'v2'] + ext + ext)}
+        if s not in streams:
+            streams.append(s)
+    db = []
+    for t in sorted(set(r.sample([0, 1, 1, 2, 2, 3, 3, 4, 4, 5], r.randint(2, 4)))):
+        db.append({'s': r.choice(streams), 't': t, 'feats': set(f for f in ('f1', 'f2', 'f3') if r.random() < 0.4),
+                   'ty': 'log' if r.random() < 0.9 else 'metric', 'fmt': fmt,
+                   'fld': {'x': r.choice(['', 'v1', 'v2']), 'ox': r.choice(['', 'v1', 'v2']), 'n': r.choice(['', 'n1', 'n3', 'w'])}})
+    ms = []
+    for _ in range(r.randint(1, 2)):
+        ms.append({'name': r.choice(['a', 'b']), 'op': r.choice(['=~', '=~', '!~']), 'val': r.choice(['R_v1', 'R_v2', 'R_v1v2', 'R_v1v2'])})
+    tgt = r.choice(db)
+    stages = []
+    for st in rand_stages(r, fmt, tgt, r.randint(0, 2)):
+        if st['k'] == 'lbl' and _mentions(st['tree']) & {'a', 'b'}:
+            continue
+        if st['k'] in ('drop', 'dropv') or st['k'] == 'json':
+            continue
+        stages.append(st)
+    q = {'m': ms, 'p': stages, 'from': 1, 'to': 5, 'lim': r.choice([0, 1000, 1000, 2]), 'fwd': r.random() < 0.5}
+    return {'q': q, 'db': db}
+
+
+def _mentions(tree):
+    if tree['t'] == 'leaf':
+        return {tree['lbl']}
+    return _mentions(tree['l']) | _mentions(tree['r'])
+
+
 def rand_case(r):
-    if r.random() < 0.12:
+    x = r.random()
+    if x < 0.12:
         return limit_shadow_case(r)
+    if x < 0.22:
+        return whole_value_case(r)
     fmt, db = rand_db(r)
     cands = [e for e in db if e['ty'] == 'log' and 1 <= e['t'] < 5] or db
     tgt = r.choice(cands)
@@ -356,6 +399,12 @@ def run(tier):
         missing = [n for n in need if not su.get(n)]
         if missing:
             raise vlib.Infra('vacuous: query constructs never exercised against the real code: %s' % missing)
+        pu = result.get('pool_use') or {}
+        needp = ['extvalue:%s:%s' % (a, o) for a in ('v1s', 'pv2', 'pv1s') for o in ('=~', '!~')] + \
+                ['valueregex:bare-alternation', 'valueregex:outer-anchors-on-alternatives', 'valueregex:bare', 'valueregex:capture-group']
+        missing = [n for n in needp if not pu.get(n)]
+        if missing:
+            raise vlib.Infra('vacuous: whole-value regex matching never exercised against the real code: %s' % missing)
         if result['nontrivial_cases'] < 100:
             raise vlib.Infra('vacuous: only %d non-trivial cases ran' % result['nontrivial_cases'])
         ndev = sum(len(fr['devs']) for fr in frs)
@@ -385,7 +434,10 @@ ASSUMPTIONS = [
     'cannot run is an infrastructure error, never a verdict',
     'atoms: label values / features / regex atoms are drawn per case from seeded pools of hostile strings with decoys; a regex '
     'atom is realised as a pattern matching exactly its members of the pool, pool values are mutually non-substring, so the '
-    'answer does not depend on whether =~ is anchored (qryn: unanchored search; Loki: anchored) - anchoring is NOT decided here',
+    'answer of those cases does not depend on whether =~ is anchored; anchoring of STREAM MATCHERS is decided by fragment A and the '
+    'whole-value cases of S: stored label values that start with / end with / contain a value the regex matches (LogQLSem.ExtVals), '
+    'the regex written bare, grouped, in either order of its alternatives and with anchors of its own; label FILTERS (| lbl =~ ..) '
+    'are only run against pool values (their anchoring is not decided here)',
     'a label with the empty value is an absent label (LogQL); returned labels are compared after dropping empty values',
     'out of scope: lines that are not JSON objects under a json stage, __error__ labels, more than one extraction stage per '
     'query, extracted labels that collide with stream labels, line_format / label_format / logfmt, and/or without parentheses '
